@@ -292,19 +292,29 @@ KeyedNone(k) ==
 Init == /\ objs = <<>> /\ list = <<>> /\ policy = "random" /\ metric = "conns"
         /\ nextOid = 1 /\ aff = {} /\ steps = 0 /\ last = [op |-> "Init"]
 
+\* (one quantifier per action so that TLC's coverage names every action)
 Mutate ==
   \/ \E s \in Slots, c \in Configs : AddBackend(s, c)
   \/ \E a \in Addrs : RemoveBackend(a)
-  \/ \E p \in Policies, m \in Metrics : SetPolicy(p, m)
-  \/ \E o \in Live, th \in Thresholds : HealthUp(o, th) \/ HealthDown(o, th)
+  \/ \E p \in Policies : \E m \in (IF p \in {"leastLoaded", "p2c"} THEN Metrics ELSE {"conns"}) : SetPolicy(p, m)
+  \/ \E o \in Live, th \in Thresholds : HealthUp(o, th)
+  \/ \E o \in Live, th \in Thresholds : HealthDown(o, th)
   \/ ResetHealth
-  \/ \E o \in Live : \/ RetryFail(o) \/ RetrySucceed(o) \/ BackoffElapse(o) \/ SetClosing(o)
-                     \/ Open(o) \/ Close(o) \/ ReqStart(o) \/ ReqEnd(o)
+  \/ \E o \in Live : RetryFail(o)
+  \/ \E o \in Live : RetrySucceed(o)
+  \/ \E o \in Live : BackoffElapse(o)
+  \/ \E o \in Live : SetClosing(o)
+  \/ \E o \in Live : Open(o)
+  \/ \E o \in Live : Close(o)
+  \/ \E o \in Live : ReqStart(o)
+  \/ \E o \in Live : ReqEnd(o)
 
 Select ==
-  \/ \E sid \in Stickies \cup {NoSticky} : \/ ConnectNone(sid)
-                                           \/ \E o \in Live : ConnectOk(sid, o) \/ ConnectFail(sid, o)
-  \/ \E k \in Keys \cup {NoKey} : KeyedNone(k) \/ \E o \in Live : Keyed(k, o)
+  \/ \E sid \in Stickies \cup {NoSticky} : ConnectNone(sid)
+  \/ \E sid \in Stickies \cup {NoSticky}, o \in Live : ConnectOk(sid, o)
+  \/ \E sid \in Stickies \cup {NoSticky}, o \in Live : ConnectFail(sid, o)
+  \/ \E k \in Keys \cup {NoKey} : KeyedNone(k)
+  \/ \E k \in Keys \cup {NoKey}, o \in Live : Keyed(k, o)
 
 Next == Mutate \/ Select
 Spec == Init /\ [][Next]_vars
